@@ -133,6 +133,10 @@ func (t *loopTr) fieldPath(e ast.Expr) (ast.Expr, string, bool) {
 	switch t.typeOf(base) {
 	case tPt:
 		return base, f, true
+	case tInt:
+		if t.heap {
+			return base, f, true // a pointer into the heap
+		}
 	case tAff:
 		if f == "Z" {
 			die("elements: %s: affine point has no Z", t.cur.name)
@@ -217,6 +221,9 @@ func (t *loopTr) elemVal(e ast.Expr) (string, bool) {
 			return t.valExpr(x.X), true
 		}
 		if base, f, ok := t.fieldPath(e); ok {
+			if t.heap && t.typeOf(base) == tInt {
+				return "(Loop.get heap " + t.intExpr(base) + " (⟨0, 0, 0⟩ : Proj K))." + f, true
+			}
 			return "(" + t.valExpr(base) + ")." + f, true
 		}
 		if s := exprStr(e); s == "bandersnatch.CurveParams.A" || s == "CurveParams.A" {
@@ -357,6 +364,11 @@ func (t *loopTr) elemAssign(ind string, lhs ast.Expr, v string) bool {
 		}
 	}
 	if base, f, ok := t.fieldPath(lhs); ok {
+		if t.heap && t.typeOf(base) == tInt {
+			ptr := t.intExpr(base)
+			fmt.Fprintf(t.sb, "%slet heap : List (Proj K) := Loop.set heap %s { (Loop.get heap %s (⟨0, 0, 0⟩ : Proj K)) with %s := %s }\n", ind, ptr, ptr, f, v)
+			return true
+		}
 		id, ok := base.(*ast.Ident)
 		if !ok {
 			die("elements: %s: unsupported field assignment %s", t.cur.name, exprStr(lhs))
@@ -940,7 +952,8 @@ func translateElements(repo string, write func(name, imports, content string)) {
 	for _, n := range order {
 		t.elemFn(el, n)
 	}
-	// every function of the file is translated, except the one that is modelled on a heap
+	t.batchNormalize(el)
+	// every function of the file is translated
 	var left []string
 	for _, d := range el.Decls {
 		if f, ok := d.(*ast.FuncDecl); ok {
@@ -950,8 +963,82 @@ func translateElements(repo string, write func(name, imports, content string)) {
 		}
 	}
 	sort.Strings(left)
-	names := append([]string{"computeY", "GetPointFromX"}, order...)
+	names := append([]string{"computeY", "GetPointFromX", "BatchNormalize"}, order...)
 	sort.Strings(names)
 	t.sb.WriteString("end\n\ndef translated : List String := [" + quoteAll(names) + "]\n\n/-- functions of the file that are not translated -/\ndef notTranslated : List String := [" + quoteAll(left) + "]\n\nend Elements\n")
 	write("Elements.lean", "import GoIpa.Model.Loop\nimport GoIpa.Model.ElemEnv\n", t.sb.String())
+}
+
+// BatchNormalize works on pointers: it is translated over a heap (`heap : List (Proj K)`, a pointer
+// is an index).  Its first four statements build `dedupedElements` by inserting every pointer of
+// `elements` into a Go map and ranging over the map; they are checked textually and replaced by
+// the parameter `dedupedElements` (Go's map semantics: SOME duplicate-free enumeration of the
+// pointers of `elements` — the tie theorem holds for every such enumeration).  The final
+// `parallel.Execute(n, func(start, end int) { for i := start; i < end; i++ { BODY } })` becomes the
+// loop `for i := 0; i < n; i++ { BODY }`: BODY touches only `dedupedElements[i]` and `invs[i]`
+// (checked), the pointers are distinct, and the ranges tile `[0, n)` (C20).
+func (t *loopTr) batchNormalize(file *ast.File) {
+	fd := findFunc(file, "BatchNormalize")
+	if fd == nil {
+		die("elements: BatchNormalize not found")
+	}
+	want := []string{
+		"mapDedupedElements := make(map[*Element]struct{}, len(elements))",
+		"for _, e := range elements { mapDedupedElements[e] = struct{}{} }",
+		"dedupedElements := make([]*Element, 0, len(mapDedupedElements))",
+		"for e := range mapDedupedElements { dedupedElements = append(dedupedElements, e) }",
+	}
+	if len(fd.Body.List) < len(want)+2 {
+		die("elements: BatchNormalize is too short")
+	}
+	for i, w := range want {
+		if got := stmtText(fd.Body.List[i]); got != w {
+			die("elements: BatchNormalize: de-duplication statement %d is %q", i, got)
+		}
+	}
+	var body []ast.Stmt
+	for _, s := range fd.Body.List[len(want):] {
+		if es, ok := s.(*ast.ExprStmt); ok {
+			if c, ok := es.X.(*ast.CallExpr); ok && exprStr(c.Fun) == "parallel.Execute" {
+				if len(c.Args) != 2 || exprStr(c.Args[0]) != "len(dedupedElements)" {
+					die("elements: BatchNormalize: unexpected parallel.Execute call")
+				}
+				lit, ok := c.Args[1].(*ast.FuncLit)
+				if !ok || len(lit.Body.List) != 1 {
+					die("elements: BatchNormalize: unexpected work function")
+				}
+				fs, ok := lit.Body.List[0].(*ast.ForStmt)
+				if !ok || stmtText(fs.Init)+"; "+exprStr(fs.Cond)+"; "+stmtText(fs.Post) != "i := start; i < end; i++" {
+					die("elements: BatchNormalize: the work function is not `for i := start; i < end; i++`")
+				}
+				// the body may index only with `i`
+				ast.Inspect(fs.Body, func(n ast.Node) bool {
+					if ix, ok := n.(*ast.IndexExpr); ok && exprStr(ix.Index) != "i" {
+						die("elements: BatchNormalize: the work function indexes with %s", exprStr(ix.Index))
+					}
+					if id, ok := n.(*ast.Ident); ok && (id.Name == "start" || id.Name == "end" || id.Name == "elements") {
+						die("elements: BatchNormalize: the work function mentions %s", id.Name)
+					}
+					return true
+				})
+				body = append(body, &ast.ForStmt{
+					Init: &ast.AssignStmt{Lhs: []ast.Expr{ast.NewIdent("i")}, Tok: token.DEFINE, Rhs: []ast.Expr{&ast.BasicLit{Kind: token.INT, Value: "0"}}},
+					Cond: &ast.BinaryExpr{X: ast.NewIdent("i"), Op: token.LSS, Y: c.Args[0]},
+					Post: &ast.IncDecStmt{X: ast.NewIdent("i"), Tok: token.INC},
+					Body: fs.Body})
+				continue
+			}
+		}
+		body = append(body, s)
+	}
+	f := &loopFn{name: "go_BatchNormalize", option: true, retVar: "heap", results: []lty{tListPt},
+		params: []string{"heap", "elements", "dedupedElements"}, ptypes: []lty{tListPt, tListInt, tListInt}}
+	t.vars = map[string]lty{"heap": tListPt, "elements": tListInt, "dedupedElements": tListInt}
+	t.cur = f
+	t.heap = true
+	fmt.Fprintf(t.sb, "/-- translated from `BatchNormalize` (over a heap; `dedupedElements` is the enumeration of the pointer set) -/\ndef go_BatchNormalize (E : ElemEnv K S) (heap : List (Proj K)) (elements : List Int) (dedupedElements : List Int) : Option (List (Proj K)) :=\n")
+	t.block("  ", body, "", "")
+	t.sb.WriteString("\n")
+	t.heap = false
+	t.fns["BatchNormalize"] = f
 }
